@@ -5,7 +5,7 @@ VERIF = os.path.dirname(os.path.dirname(os.path.abspath(__file__)))
 
 INTRO = '''
 *What exists.*  `lean/Prtpy/` holds import-free executable models of every code path the 20 properties anchor in
-(`Basic`, `Bins`, `Objectives`, `Heap`, `Spec`, `Model/{Simple,KK,CG,DP,SNP,CBLDM,BinCompletion,ILP,Validate}`);
+(`Basic`, `Bins`, `Objectives`, `Heap`, `Spec`, `Model/{Simple,KK,CKKF,CG,DP,SNP,RNP,CBLDM,BinCompletion,BCTrace,ILP,Validate}`);
 `lean/Driver.lean` is the line-protocol executable the harness talks to; `lean/PrtpyProofs/` holds the proofs
 (one file per topic, all imported by `PrtpyProofs.lean`); `lean/theorems.json` registers, per property, the theorems
 the audit must find in the build with axioms ⊆ {propext, Classical.choice, Quot.sound}.  `harness/` is the Python side:
@@ -16,7 +16,7 @@ are claimed in MANIFEST.json (C15 at level `other`, the rest at level `proof`).
 *Differences from the round-0 plan.*
 
 * Proved although planned as stretch / stated-only: `cg_optimal` (all 16 switch combinations × 5 objectives, with an
-  explicit fuel bound), `cbldm_optimal`, `ckk_optimal` (both managers, and the generator's last yield),
+  explicit fuel bound), `cbldm_optimal`, `ckkF_optimal` (both managers; `ckkGen_last_optimal` for the generator's last yield),
   `bc_optimal` (bin completion's search is optimal: Martello–Toth dominance formalised as `SDom`, completeness of
   `find_bin_completions`, soundness of both prunes), validity of CKK / SNP / RNP (k ≤ 5), `heap_refines_pure`,
   all of C17's formulation theorems, all textbook equalities of C14, naturality for CG and CBLDM, scaling for multifit,
@@ -32,6 +32,12 @@ are claimed in MANIFEST.json (C15 at level `other`, the rest at level `proof`).
   greedy's first solution is the greedy (LPT) one") does not allow for it, so it is recorded as a finding rather than
   silently read away; the check still reports a first solution that differs from LPT in any other configuration, or
   whose objective value differs from LPT's.
+* A second defect found by a proof attempt (after F10): **F11** — complete Karmarkar–Karp returned different sum vectors
+  through the sums-only and the contents-keeping manager, and for list and dict input (section 9).  Repaired in /repo;
+  `Prtpy.ckk` (Model/KK.lean) is the code before the repair (kept for the refutations and because the generator shares its
+  step function), `Prtpy.ckkF` (Model/CKKF.lean) the code after it; snp and rnp call `ckkF` for their two-way splits.
+* The correspondence for bin completion is at the level of the search, not only of the answer: the implementation's
+  sequence of `find_bin_completions` calls against the trace of `BC.binCompletionT` (`binCompletionT_fst`).
 * The harness side of the correspondence runs the implementation calls in a pool of forked worker processes
   (`engine.impl_map`); C15's histories run in the main interpreter.
 * The output types of `prtpy/outputtypes.py` are part of the model, not of the harness: every driver request carries
